@@ -157,6 +157,9 @@ func (m *MuxBroker) Run() {
 		select {
 		case p.ch <- stream:
 		default:
+			// There is already a pending stream for this ID, nobody would
+			// ever pick this one up.
+			stream.Close()
 		}
 
 		// Wait for a timeout
@@ -183,11 +186,9 @@ func (m *MuxBroker) getStream(id uint32) *muxBrokerPending {
 func (m *MuxBroker) timeoutWait(id uint32, p *muxBrokerPending) {
 	// Wait for the stream to either be picked up and connected, or
 	// for a timeout.
-	timeout := false
 	select {
 	case <-p.doneCh:
 	case <-time.After(5 * time.Second):
-		timeout = true
 	}
 
 	m.Lock()
@@ -196,12 +197,12 @@ func (m *MuxBroker) timeoutWait(id uint32, p *muxBrokerPending) {
 	// Delete the stream so no one else can grab it
 	delete(m.streams, id)
 
-	// If we timed out, then check if we have a channel in the buffer,
-	// and if so, close it.
-	if timeout {
-		select {
-		case s := <-p.ch:
-			s.Close()
-		}
+	// Check if we have a channel in the buffer, and if so, close it. This
+	// must not block: the stream may have been accepted in the meantime, or
+	// closed by another timeout, and we are holding the lock.
+	select {
+	case s := <-p.ch:
+		s.Close()
+	default:
 	}
 }
